@@ -42,7 +42,18 @@ class Balance(V.Family):
         return (r["act"], r["res"], r["ret"], sc, ac, kind(r["a"]), kind(r["b"]), len(r["ntf"]), changed)
 
     def extra_coverage(self, trace_all, flags_all):
-        return dict(committee_sizes=sorted(set(r["n"] for r in trace_all if r["act"] == "reset")),
+        # the unbounded counterpart of S1 for the arithmetic part of C01 (Apalache, spec/apalache/BalanceInd.tla);
+        # informative: a failure here is reported in the evidence, it is no verdict about the code
+        lemma = []
+        try:
+            import fam_lemmas
+            for name, module, args, want in fam_lemmas.OBLIGATIONS:
+                if module == "BalanceInd.tla":
+                    got = fam_lemmas.apalache(module, args, timeout=300)
+                    lemma.append(dict(obligation=name, expected=want, outcome=got))
+        except Exception as e:  # noqa
+            lemma.append(dict(error=str(e)[:200]))
+        return dict(unbounded_inductive_invariant_apalache=lemma,committee_sizes=sorted(set(r["n"] for r in trace_all if r["act"] == "reset")),
                     scales=sorted(set(r["scale"] for r in trace_all if r["act"] == "reset")))
 
 
